@@ -51,7 +51,7 @@ Section UripostProofs.
     match i with
     | PBlank => BSkip rest h
     | PHeader _ k _ _ v _ => BSkip rest (header_set k v h)
-    | PReq u t b => BFound (mk_post u t b h) rest h (nlen b, nlen (b ++ rest))
+    | PReq u t b => BFound (mk_post u t b h) rest h (alloc_of (nlen b) (nlen (b ++ rest)), nlen (b ++ rest))
     end.
 
   Lemma wf_lay_of i l : wf (i, l) = true -> wf_lay l = true.
@@ -105,7 +105,7 @@ Section UripostProofs.
         apply N.leb_le in Hc1, Hc2. apply N.eqb_neq. unfold LBR. lia. }
       rewrite Hcl.
       match goal with Hu : url_ok url_parse u = true |- _ => rewrite Hu; cbn [negb] end.
-      rewrite alloc_read_exact by exact Hb.
+      rewrite alloc_read_exact.
       unfold setup. change (valid_method POST) with true. cbn [negb].
       match goal with Hu : url_ok url_parse u = true |- _ => rewrite Hu; cbn [negb] end.
       reflexivity.
